@@ -795,5 +795,22 @@ example : utf8ValidatePrefix [0xC2, 0x80, 0x80] = true ∧ validUtf8 [0xC2, 0x80
 example : encodeUtf8 0x20AC = some [0xE2, 0x82, 0xAC] := by decide
 example : encodeUtf8 0xD800 = none := by decide
 
+
+/-! ## C11 for UTF-8 tendrils -/
+
+/-- **A UTF-8 tendril always holds valid UTF-8.**  After any history of operations (`StrTendril`
+offers no byte stores, so `setByte` is excluded) every tendril of the pool is well-formed in the
+heap and its bytes are well-formed UTF-8 (Unicode Table 3-7). -/
+theorem C11_utf8_valid (slots : Nat) (ops : List Op)
+    (hs : ∀ op ∈ ops, ∀ i k v, op ≠ .setByte i k v) :
+    Lemmas.Tendril.StWF (run Format.utf8 (St.init slots) ops) ∧
+    ∀ (i : Nat) (t : T), (run Format.utf8 (St.init slots) ops).pool[i]? = some (some t) →
+      validUtf8 (abs (run Format.utf8 (St.init slots) ops).heap t) = true := by
+  have hso : StoresOK Format.utf8 ops := by
+    intro op hop i k v he
+    exact (hs op hop i k v he).elim
+  obtain ⟨hwf, hv⟩ := C11_reachable_wf Format.utf8 laws_utf8 slots ops hso
+  exact ⟨hwf, fun i t hp => hv i _ (abs_lookup hp)⟩
+
 end H5V.Lemmas.Tendril.Utf8
 
